@@ -238,6 +238,17 @@ def law_operands(run, rng, a, b, v, engine, case) -> None:
                 # 4 = the three products and the sum; the law itself is stated at 1e-12*|v|
                 run.violation(f'{vk} @ {ka} differs from the model by {d:.3g}', witness={'got': got, 'want': want_va},
                               case=case, engine=engine, key='vec-rot-wrong')
+            # the result is a value of its own: working on it in place afterwards leaves both operands as they were
+            # (so v, v @ A and (v @ A) @= B can be used side by side, as the associativity law does)
+            if vk != 'tuple':
+                later = V @ A
+                later @= make_rot(ROT_KINDS[(ROT_KINDS.index(ka) + 1) % 4], b)
+                run.count('results_edited_in_place')
+                if snap(V) != sv or snap(A) != sa:
+                    run.violation(f'editing the result of {vk} @ {ka} in place changed an operand of the product',
+                                  witness={'before': [sv, sa], 'after': [snap(V), snap(A)]}, case=case, engine=engine,
+                                  key='result-aliases-operand')
+                    continue
             # the reflected operator invoked directly gives the same answer as the operator expression
             refl = type(A).__rmatmul__(A, V)
             if refl is not NotImplemented:
@@ -299,6 +310,14 @@ def law_operands(run, rng, a, b, v, engine, case) -> None:
             if snap(A) != sa or snap(B) != sb:
                 run.violation(f'{ka} @ {kb} changed an operand', witness={'before': [sa, sb], 'after': [snap(A), snap(B)]},
                               case=case, engine=engine, key='matmul-mutates-operand')
+            later = A @ B
+            later @= A
+            run.count('results_edited_in_place')
+            if snap(A) != sa or snap(B) != sb:
+                run.violation(f'editing the result of {ka} @ {kb} in place changed an operand of the product',
+                              witness={'before': [sa, sb], 'after': [snap(A), snap(B)]}, case=case, engine=engine,
+                              key='result-aliases-operand')
+                continue
             refl = type(B).__rmatmul__(B, A)
             if refl is not NotImplemented:
                 run.count('reflected_direct_calls')
@@ -360,6 +379,76 @@ def law_operands(run, rng, a, b, v, engine, case) -> None:
                                   case=case, engine=engine, key='imatmul-differs')
             if snap(B) != sb:
                 run.violation(f'{ka} @= {kb} changed the right operand', case=case, engine=engine, key='matmul-mutates-operand')
+
+
+def law_entry_points(run, rng, a, b, v, engine, case) -> None:
+    """The other public ways to build a matrix from Euler angles and to rotate a vector: each is the same rotation as the
+    operator form (model: roll about X, then pitch about Y, then yaw about Z)."""
+    import warnings
+    from srctools.math import Vec, Angle, FrozenAngle, Matrix, FrozenMatrix, to_matrix
+    ma, mb = model_matrix(*a), model_matrix(*b)
+    vmag = max(1.0, max(abs(x) for x in v))
+    ident = [[1.0, 0.0, 0.0], [0.0, 1.0, 0.0], [0.0, 0.0, 1.0]]
+
+    def same(label: str, got, want, tol: float = 1e-12, key: str = 'entry-point-differs') -> None:
+        run.count('entry_point_evaluations')
+        d = max(abs(x - y) for r1, r2 in zip(got, want) for x, y in zip(r1, r2))
+        if not d <= tol:
+            run.violation(f'{label} differs from the model rotation by {d:.3g}', witness={'got': got, 'model': want}, case=case,
+                          engine=engine, key=key)
+
+    text = ' '.join(repr(float(x)) for x in a)
+    for cls in (Matrix, FrozenMatrix):
+        n = cls.__name__
+        same(f'{n}.from_pitch', mat_entries(cls.from_pitch(a[0])), model_matrix(a[0], 0.0, 0.0))
+        same(f'{n}.from_yaw', mat_entries(cls.from_yaw(a[1])), model_matrix(0.0, a[1], 0.0))
+        same(f'{n}.from_roll', mat_entries(cls.from_roll(a[2])), model_matrix(0.0, 0.0, a[2]))
+        same(f'{n}.from_angstr(text)', mat_entries(cls.from_angstr(text)), ma)
+        same(f'{n}.from_angstr(unparsable text, defaults)', mat_entries(cls.from_angstr('not an angle', a[0], a[1], a[2])), ma)
+        same(f'{n}.from_angstr(Angle)', mat_entries(cls.from_angstr(Angle(*a))), ma)
+        # the three single-axis factors compose to the whole: roll first, then pitch, then yaw
+        prod = cls.from_roll(a[2]) @ cls.from_pitch(a[0]) @ cls.from_yaw(a[1])
+        same(f'{n}.from_roll @ from_pitch @ from_yaw', mat_entries(prod), ma, 4e-12)
+    same('to_matrix(Angle)', mat_entries(to_matrix(Angle(*a))), ma)
+    same('to_matrix(FrozenAngle)', mat_entries(to_matrix(FrozenAngle(*a))), ma)
+    same('to_matrix(Vec of angles)', mat_entries(to_matrix(Vec(*a))), ma)
+    same('to_matrix(tuple of angles)', mat_entries(to_matrix(tuple(a))), ma)
+    same('to_matrix(None)', mat_entries(to_matrix(None)), ident, 0.0)
+    for cls in (Matrix, FrozenMatrix):
+        same(f'to_matrix({cls.__name__})', mat_entries(to_matrix(cls.from_angle(*a))), ma)
+    want = vmul(v, ma)
+    origin = gen_vec(rng)
+    with warnings.catch_warnings():
+        warnings.simplefilter('ignore')
+        w = Vec(*v)
+        ret = w.rotate(a[0], a[1], a[2], round_vals=False)
+        if ret is not w:
+            run.violation('Vec.rotate() did not return the vector it works on', case=case, engine=engine, key='entry-point-differs')
+        same('Vec.rotate(p, y, r, round_vals=False)', [[w.x, w.y, w.z]], [list(want)], 4e-12 * vmag + 1e-15)
+        w = Vec(*v)
+        w.rotate(a[0], a[1], a[2])
+        same('Vec.rotate(p, y, r) (rounded to 6 places)', [[w.x, w.y, w.z]], [list(want)], 5.1e-7 + 4e-12 * vmag)
+        w = Vec(*v)
+        w.rotate_by_str(text, round_vals=False)
+        same('Vec.rotate_by_str(text, round_vals=False)', [[w.x, w.y, w.z]], [list(want)], 4e-12 * vmag + 1e-15)
+    for label, rot in (('Angle', Angle(*a)), ('FrozenAngle', FrozenAngle(*a)), ('Matrix', Matrix.from_angle(*a)),
+                       ('FrozenMatrix', FrozenMatrix.from_angle(*a)), ('None', None)):
+        w = Vec(*v)
+        w.localise(rng.choice((Vec(*origin), tuple(origin))), rot)
+        base = want if rot is not None else v
+        same(f'Vec.localise(origin, {label})', [[w.x, w.y, w.z]], [[base[i] + origin[i] for i in range(3)]],
+             4e-12 * (vmag + max(abs(x) for x in origin)) + 1e-15)
+    w = Vec(*v)
+    with w.transform() as mat:
+        mat @= Matrix.from_angle(*a)
+        mat @= Angle(*b)
+    same('Vec.transform() block', [[w.x, w.y, w.z]], [list(vmul(v, mmul(ma, mb)))], 1e-11 * vmag + 1e-15)
+    ang = Angle(*a)
+    with ang.transform() as mat:
+        mat @= Matrix.from_angle(*b)
+    mab = mmul(ma, mb)
+    h = horiz(mab)
+    same('Angle.transform() block', model_matrix(ang.pitch, ang.yaw, ang.roll), mab, 1e-9 if h > 0.001 else 2 * h + 1e-9)
 
 
 def law_constructions(run, rng, engine, case_id) -> None:
@@ -487,10 +576,12 @@ def one_case(run, rng, i, engine) -> None:
     for m, e in law_matrix(run, a, engine, case):  # the mutable and the frozen class
         law_to_angle(run, m, e, engine, case)
         law_inverse(run, m, e, engine, case)
-    if i % 3 == 0:
+    if i % 3 == 0 or i % 9 in (1, 5):   # general and gimbal operands, plus single-axis/identity and nearly-zero ones
         law_operands(run, rng, a, b, v, engine, case)
     if i % 5 == 0:
         law_constructions(run, rng, engine, i)
+    if i % 4 == 2:
+        law_entry_points(run, rng, a, b, v, engine, case)
     if i % 4 == 1:
         law_near_twins(run, rng, a, engine, case)
     run.case([a, b, v], nontrivial_angle(a), sample=case if i < 3 else None, tag=engine)
@@ -534,7 +625,7 @@ def main(run, shard=(0, 1)) -> None:
     probe.check_reached(run)
     if shard[0] == 0:
         native_engine(run)
-    run.require('self_aliased_products', 'near_twin_evaluations', 'reflected_direct_calls', 'from_angle_checked', 'to_angle_roundtrips', 'to_angle_gimbal_branch', 'operand_combos', 'assoc_checked',
+    run.require('self_aliased_products', 'results_edited_in_place', 'entry_point_evaluations', 'assoc_through_gimbal', 'near_twin_evaluations', 'reflected_direct_calls', 'from_angle_checked', 'to_angle_roundtrips', 'to_angle_gimbal_branch', 'operand_combos', 'assoc_checked',
                 'inverse_checked', 'constructed_rotations')
 
 
